@@ -54,6 +54,11 @@ def warmup():
             pass
     core.install_solver_seam()
     core.load_corpus(core.THOROUGH_THEORIES)
+    try:
+        from checks import c13_web
+        c13_web.load_ide()      # real handlers of app/ide.py behind the stub transport
+    except Exception as e:
+        _w['web_unavailable'] = repr(e)
 
 
 def describe():
@@ -91,6 +96,8 @@ def gen(rng, tier):
     cfg = {'tier': tier, 'sessions': [{'theory': rng.pick(ths), 'k': rng.randrange(10000)} for _ in range(nsess)],
            'unknown_p': rng.pick([0.0, 0.0, 0.0, 0.03, 0.15]), 'seed': rng.randrange(1 << 30),
            'disturb': rng.pick([0.0, 0.2, 0.4])}
+    if rng.chance(0.35):
+        return gen_web(rng, tier, cfg, nsess)
     ops = []
     n = rng.randint(8, 25) * nsess
     for _ in range(n):
@@ -109,6 +116,27 @@ def gen(rng, tier):
         elif k == 'export_import':
             op['adopt'] = rng.chance(0.5)
         ops.append(op)
+    return cfg, ops
+
+
+WEB_DISTURB = ['check_modify_later', 'check_modify_other', 'load_json_file', 'find_files', 'gc']
+
+
+def gen_web(rng, tier, cfg, nsess):
+    """web layer: only JSON payloads a browser sends reach the real handlers of app/ide.py"""
+    cfg['layer'] = 'web'
+    cfg['unknown_p'] = 0.0
+    ops = []
+    n = rng.randint(6, 16) * nsess
+    for _ in range(n):
+        s = rng.randrange(nsess)
+        if rng.chance(cfg['disturb'] + 0.1):
+            ops.append({'op': 'wdisturb', 'kind': rng.pick(WEB_DISTURB), 'a': rng.randrange(10000), 's': s})
+        k = rng.weighted([('wapply', 55), ('winit', 10), ('wdup', 6), ('wstale', 6), ('wself_cite', 8), ('wsearch', 8)])
+        if k == 'wself_cite' and rng.chance(0.6):
+            # bias the fault to land right before the operation that can observe it
+            ops.append({'op': 'wdisturb', 'kind': 'check_modify_later', 'a': rng.randrange(10000), 's': s})
+        ops.append({'op': k, 's': s, 'a': rng.randrange(10000), 'b': rng.randrange(10000)})
     return cfg, ops
 
 
@@ -205,6 +233,17 @@ class Runner:
 
     def start(self, s):
         from server import server
+        if self.cfg.get('layer') == 'web':
+            s.steps = []
+            s.webdead = None
+            try:
+                s.establish()
+                s.goal = server.parse_init_state(s.thm['prop']).prf.items[-1].th
+            except Exception as e:
+                s.dead = 'init:' + type(e).__name__
+                return
+            self.log.add('open-web', s.idx, s.thm['theory'], s.thm['name'])
+            return
         try:
             s.establish()
             s.state = server.parse_init_state(s.thm['prop'])
@@ -327,6 +366,8 @@ class Runner:
     def step(self, seq, op):
         k = op['op']
         ctr, log = self.ctr, self.log
+        if k.startswith('w'):
+            return self.web_step(seq, op)
         if k == 'disturb':
             self.last_actor = 'disturber'
             self.disturb(seq, op)
@@ -481,6 +522,208 @@ class Runner:
                 self.verdict(s, s.state, s.last_method or 'reimport')
         elif k == 'restart':
             return 'restart'
+
+    # ----- web layer ------------------------------------------------------------------------------
+    def payload(self, s, steps=None, **extra):
+        d = {'username': 'master', 'theory_name': s.thm['theory'], 'thm_name': s.thm['name'],
+             'vars': s.thm['vars'], 'prop': s.thm['prop'], 'steps': list(s.steps if steps is None else steps),
+             'profile': False}
+        d.update(extra)
+        return json.loads(json.dumps(d))
+
+    def web_snapshot(self):
+        from checks import c13_web as web
+        pc = web.proof_cache()
+        return [(st, core.state_digest(st)) for st in pc.states]
+
+    def web_check_isolation(self, snap, what):
+        from checks import c13_web as web
+        pc = web.proof_cache()
+        live = set(id(st) for st in pc.states)
+        for st, dg in snap:
+            if id(st) in live and core.state_digest(st) != dg:
+                raise core.Violation('I6', 'a state kept in the server history changed during %s' % what,
+                                     'I6/server-history/%s' % what)
+
+    def web_judge(self, s, index, lm, depth=0):
+        """judge the state the server keeps at `index` for session s, under the session's own theory and context"""
+        from checks import c13_web as web
+        import hashlib
+        pc = web.proof_cache()
+        if not pc.check_cache(self.payload(s)) or index >= len(pc.states):
+            return
+        # out of scope once a replayed step reported an error (it did not complete)
+        for h in pc.history[:index]:
+            if 'error' in h:
+                self.ctr.inc('web_states_after_errored_step_not_judged')
+                return
+
+        def key(i):
+            return hashlib.sha1(json.dumps(s.steps[:i], sort_keys=True).encode()).hexdigest()[:12]
+        if not hasattr(s, 'wcarried'):
+            s.wcarried = {}
+        carried = set()
+        if index > 0:
+            if key(index - 1) not in s.wcarried and depth < 40:
+                # what the predecessor state already carries decides what is new here
+                self.web_judge(s, index - 1, s.steps[index - 2]['method_name'] if index > 1 else 'init', depth + 1)
+            carried = s.wcarried.get(key(index - 1), set())
+        st = pc.states[index]
+        s.carried = set(carried)
+        s.state = st
+        try:
+            self.verdict(s, st, lm)
+            s.wcarried[key(index)] = set(s.carried)
+        finally:
+            s.state = None
+
+    def web_step(self, seq, op):
+        from checks import c13_web as web
+        k = op['op']
+        ctr, log = self.ctr, self.log
+        s = self.sessions[op['s'] % len(self.sessions)]
+        if s.dead:
+            return
+        if self.last_actor is not None and self.last_actor != s.idx:
+            self.interleaved = True
+        self.last_actor = s.idx if k != 'wdisturb' else 'disturber'
+        if k == 'wdisturb':
+            return self.web_disturb(seq, op, s)
+        rec_all = s.thm['steps']
+        snap = self.web_snapshot()
+        if k in ('wapply', 'wdup', 'wstale', 'wself_cite'):
+            if k == 'wapply':
+                if len(s.steps) >= len(rec_all) or s.webdead:
+                    return
+                index, step, steps = len(s.steps), dict(rec_all[len(s.steps)]), s.steps
+            elif k == 'wdup':
+                # the same request again (double click / retry): stale index and the steps as they were
+                if not s.steps:
+                    return
+                index, step, steps = len(s.steps) - 1, dict(s.steps[-1]), s.steps[:-1]
+                ctr.inc('fault_duplicated_request')
+            elif k == 'wstale':
+                # a step inserted in the middle of the history
+                if len(s.steps) < 2:
+                    return
+                index = op['a'] % len(s.steps)
+                step, steps = dict(s.steps[index]), s.steps
+                ctr.inc('fault_stale_index')
+            else:
+                # a step citing the very theorem being proved: only applicable under a wrong (later) theory
+                index, steps = len(s.steps), s.steps
+                step = {'method_name': 'apply_backward_step', 'goal_id': None, 'theorem': s.thm['name']}
+            try:
+                with op_alarm(120):
+                    if step.get('goal_id') is None:
+                        # the browser already shows the current proof: no extra request (which would
+                        # re-establish the theory as a side effect)
+                        proof = getattr(s, 'last_proof', None)
+                        if proof is None:
+                            r0 = web.call('init_saved_proof', self.payload(s, steps, index=index))
+                            proof = r0['state']['proof']
+                            snap = self.web_snapshot()
+                        gaps = [l['id'] for l in proof if l['rule'] == 'sorry']
+                        if not gaps:
+                            return
+                        step['goal_id'] = gaps[0]
+                    res = web.call('apply_method', self.payload(s, steps, index=index, step=step))
+            except OpTimeout:
+                ctr.inc('op_timeout')
+                s.dead = 'op_timeout'
+                return
+            except Exception as e:
+                ctr.inc('web_handler_raised')
+                log.add(seq, k, s.idx, 'handler-raised', type(e).__name__)
+                return
+            self.web_check_isolation(snap, k)
+            kind = 'state' if 'state' in res else ('query' if 'query' in res else 'error')
+            log.add(seq, k, s.idx, step.get('method_name'), index, kind)
+            ctr.inc('web_apply_' + kind)
+            if kind != 'state':
+                if k == 'wapply':
+                    s.webdead = kind
+                return
+            if k in ('wapply', 'wself_cite'):
+                s.last_proof = res['state']['proof']
+            if k == 'wapply':
+                s.steps = s.steps + [step]
+                self.web_judge(s, index + 1, step['method_name'])
+            elif k == 'wself_cite':
+                # the server accepted it: the client now has this step in its list
+                s.steps = s.steps + [step]
+                s.webdead = 'self-cite accepted'
+                self.web_judge(s, index + 1, 'apply_backward_step')
+            elif k == 'wdup':
+                self.web_judge_payload(s, steps + [step], index + 1, step['method_name'])
+            else:
+                self.web_judge_payload(s, steps[:index] + [step] + steps[index:], index + 1, step['method_name'])
+        elif k == 'winit':
+            index = op['a'] % (len(s.steps) + 1)
+            try:
+                with op_alarm(120):
+                    res = web.call('init_saved_proof', self.payload(s, index=index))
+            except OpTimeout:
+                ctr.inc('op_timeout')
+                return
+            except Exception as e:
+                ctr.inc('web_handler_raised')
+                return
+            self.web_check_isolation(snap, k)
+            log.add(seq, k, s.idx, index, 'error' in res)
+            self.web_judge(s, index, s.steps[index - 1]['method_name'] if index else 'init')
+        elif k == 'wsearch':
+            index = len(s.steps)
+            try:
+                with op_alarm(120):
+                    r0 = web.call('init_saved_proof', self.payload(s, index=index))
+                    gaps = [l['id'] for l in r0['state']['proof'] if l['rule'] == 'sorry']
+                    if not gaps:
+                        return
+                    res = web.call('search_method', self.payload(s, index=index, step={'goal_id': gaps[op['a'] % len(gaps)], 'fact_ids': []}))
+            except OpTimeout:
+                ctr.inc('op_timeout')
+                return
+            except Exception as e:
+                ctr.inc('web_handler_raised')
+                return
+            self.web_check_isolation(snap, k)
+            log.add(seq, k, s.idx, len(res.get('search_res', [])))
+
+    def web_judge_payload(self, s, steps, index, lm):
+        """judge the server's state for a payload that is not the client's current one"""
+        saved = s.steps
+        s.steps = steps
+        try:
+            self.web_judge(s, index, lm)
+        finally:
+            s.steps = saved
+
+    def web_disturb(self, seq, op, s):
+        from checks import c13_web as web
+        kind, a = op['kind'], op['a']
+        self.ctr.inc('fault_disturber_' + kind)
+        ths = theories_for(self.cfg.get('tier', 'quick'))
+        try:
+            with op_alarm(120):
+                if kind == 'check_modify_later':
+                    # another tab checks an item further down the same file: leaves theory.thy at a later limit
+                    web.call('check_modify', {'username': 'master', 'filename': s.thm['theory'], 'line_length': 80,
+                                              'item': {'ty': 'def.ax', 'name': 'dist_c%d' % (a % 5), 'type': 'bool => bool'}})
+                elif kind == 'check_modify_other':
+                    web.call('check_modify', {'username': 'master', 'filename': ths[a % len(ths)], 'line_length': 80,
+                                              'item': {'ty': 'def.ax', 'name': 'dist_c%d' % (a % 5), 'type': 'bool'}})
+                elif kind == 'load_json_file':
+                    web.call('load_json_file', {'username': 'master', 'filename': ths[a % len(ths)], 'line_length': 80, 'profile': False})
+                elif kind == 'find_files':
+                    web.call('find_files', {'username': 'master'})
+                elif kind == 'gc':
+                    gc.collect()
+        except OpTimeout:
+            self.ctr.inc('op_timeout')
+        except Exception as e:
+            self.ctr.inc('disturber_raised')
+        self.log.add(seq, 'wdisturb', kind)
 
     def disturb(self, seq, op):
         from logic import basic, context
